@@ -1412,7 +1412,11 @@ func runGatewayAny(c *rig.Ctx, pool *gwPool, raw json.RawMessage, record bool) b
 
 func runGatewayStream(c *rig.Ctx, pool *gwPool) {
 	r := c.Rng
-	n := c.Budget(260, 9000)
+	c.SetExtra("gateway_stream_rule", "gateway: one whole configuration (2-3 UpstreamCluster objects with overlapping names/aliases incl. conflicts, case variants, dead aliases with a port; 1-3 dispatch policies with 1-3 rules from harness/matchgen — inverted lists included —, a flow-control schema name (present, empty, unknown), an upstream subset (explicit, with a stale or repeated name, or none); schemas max-in-flight 0-3 / token bucket qps 1,2,4 burst 1-3 / exempt; 1-3 endpoints, disabled flags, duplicate entries, first health reports; feature gates DenyAllRequests, CloseConnectionWhenIdle; per-cluster token and impersonation oracles in which the same token may be another user) and a sequence of 8-24 operations (requests in every host spelling incl. unknown, refused and IP-literal hosts, 19 targets, 7 methods, impersonation headers in three casings, stray family members, requests HELD inside their upstream, completions, health reports, a scripted clock advancing in quarter seconds). distinct = distinct canonical case; non-trivial = the sequence shows at least two different rows of the decision table")
+	n := c.Budget(1200, 30000)
+	if c.Search && !c.Thorough() && n > 3600 {
+		n = 3600 // a broken obligation multiplies the quick budget by 10: three times is plenty for this stream
+	}
 	for i := 0; i < n && c.NFailures() < 8; i++ {
 		cs := genGCase(r)
 		v := runGatewayCase(c, pool, cs)
